@@ -254,6 +254,55 @@ Proof.
   |change hdrTrailer with (s2b "Trailer") in H]; rewrite H; now rewrite ?orb_true_r.
 Qed.
 
+Lemma classify_excluded k :
+  match classify k with
+  | KContentLength | KConnection | KTransferEncoding | KTrailer | KDate => excluded_name k = true
+  | _ => True
+  end.
+Proof.
+  unfold classify.
+  destruct (ieq hdrContentType k) eqn:E1; [exact I|].
+  destruct (ieq hdrContentLength k) eqn:E2; [apply (excluded_of_ieq k hdrContentLength); tauto|].
+  destruct (ieq hdrContentEncoding k) eqn:E3; [exact I|].
+  destruct (ieq hdrConnection k) eqn:E4; [apply (excluded_of_ieq k hdrConnection); tauto|].
+  destruct (ieq hdrServer k) eqn:E5; [exact I|].
+  destruct (ieq hdrSetCookie k) eqn:E6; [exact I|].
+  destruct (ieq hdrTransferEncoding k) eqn:E7; [apply (excluded_of_ieq k hdrTransferEncoding); tauto|].
+  destruct (ieq hdrTrailer k) eqn:E8; [apply (excluded_of_ieq k hdrTrailer); tauto|].
+  destruct (ieq hdrDate k) eqn:E9; [apply (excluded_of_ieq k hdrDate); tauto|].
+  exact I.
+Qed.
+
+Lemma classify_plain_not_date k : classify k = KPlain -> beq k hdrDate = false.
+Proof.
+  intros H. apply beq_false_neq. intros ->. revert H. now vm_compute.
+Qed.
+
+Lemma excluded_class_neq k n c :
+  classify k = c -> excluded_name n = false ->
+  match c with KContentLength | KConnection | KTransferEncoding | KTrailer | KDate => True | _ => False end ->
+  beq k n = false.
+Proof.
+  intros Hc Hn Hm. apply beq_false_neq. intros ->. pose proof (classify_excluded n) as H. rewrite Hc in H.
+  destruct c; try contradiction; rewrite H in Hn; discriminate Hn.
+Qed.
+
+(* replacing the value of a single-valued field that had no line yet *)
+Lemma singleton_replace X Y S old new n :
+  new <> [] ->
+  f_get (client_fields (X ++ opt_line S old ++ Y)) S = [] ->
+  f_get (client_fields (X ++ opt_line S new ++ Y)) n
+  = f_get (client_fields (X ++ opt_line S old ++ Y)) n ++ (if beq S n then [trim_ows new] else []).
+Proof.
+  intros Hnew Hprev. rewrite !client_fields_app, !f_get_app in *.
+  destruct (beq S n) eqn:E.
+  - apply beq_eq in E. subst n.
+    apply app_eq_nil in Hprev as [H1 Hprev]. apply app_eq_nil in Hprev as [H2 H3].
+    rewrite H1, H2, H3. destruct new as [|c new]; [congruence|].
+    unfold opt_line. rewrite f_get_client_cons, beq_refl. reflexivity.
+  - rewrite !(f_get_client_opt S) by assumption. now rewrite app_nil_r.
+Qed.
+
 (* the per-name view of the lines after one more Add *)
 Lemma fh_add_lines f k v n :
   excluded_name n = false ->
@@ -264,100 +313,60 @@ Proof.
   intros Hn Hk Hex Hs. unfold fh_add. fold (fhkey k). rewrite Hk.
   assert (Hdate : beq hdrDate n = false).
   { apply beq_false_neq. intros <-. revert Hn. now vm_compute. }
+  assert (Hnew : v <> [] -> remove_newlines v <> []) by (destruct v; [congruence|discriminate]).
+  change (wire_val v) with (trim_ows (remove_newlines v)).
   unfold class_exact in Hex. unfold lines_of, fh_lines in *.
   destruct (classify k) eqn:Ec; cbn [is_singleton_class] in Hs; cbn [f_ct f_ce f_server f_h f_cookies].
   - (* Content-Type *)
-    subst k. destruct Hs as [Hv Hprev]; [reflexivity|].
-    rewrite !client_fields_app, !f_get_app in *.
-    apply app_eq_nil in Hprev as [H1 Hprev]. apply app_eq_nil in Hprev as [H2 Hprev].
-    apply app_eq_nil in Hprev as [H3 Hprev]. apply app_eq_nil in Hprev as [H4 H5].
-    destruct (beq hdrContentType n) eqn:E.
-    + apply beq_eq in E. subst n. rewrite H1, H3, H4, H5.
-      assert (E2 : f_get (client_fields (opt_line hdrContentType (f_ct f))) hdrContentType = []) by exact H2.
-      rewrite E2. cbn [app].
-      destruct (remove_newlines v) eqn:Ev; [destruct v; [congruence|discriminate]|].
-      unfold f_get. cbn. unfold wire_val. unfold remove_newlines in Ev. now rewrite Ev.
-    + rewrite (f_get_client_opt hdrContentType (f_ct f)), (f_get_client_opt hdrContentType (remove_newlines v)) by assumption.
-      now rewrite app_nil_r.
-  - (* Content-Length: excluded, untouched *)
-    assert (E : beq k n = false).
-    { apply beq_false_neq. intros ->. unfold classify in Ec.
-      destruct (ieq hdrContentType n); [discriminate|]. destruct (ieq hdrContentLength n) eqn:E2; [|discriminate].
-      rewrite (excluded_of_ieq n hdrContentLength) in Hn; [discriminate|assumption|tauto]. }
+    subst k. destruct Hs as [Hv Hprev]; [reflexivity|]. clear Ec Hk.
+    remember hdrContentType as S. remember (opt_line hdrServer (f_server f)) as X.
+    apply singleton_replace; auto.
+  - (* Content-Length: managed by fasthttp; excluded name *)
+    assert (E : beq k n = false) by (eapply excluded_class_neq; eauto; exact I).
     rewrite E. now rewrite app_nil_r.
   - (* Content-Encoding *)
-    subst k. destruct Hs as [Hv Hprev]; [reflexivity|].
-    rewrite !client_fields_app, !f_get_app in *.
-    apply app_eq_nil in Hprev as [H1 Hprev]. apply app_eq_nil in Hprev as [H2 Hprev].
-    apply app_eq_nil in Hprev as [H3 Hprev]. apply app_eq_nil in Hprev as [H4 H5].
-    destruct (beq hdrContentEncoding n) eqn:E.
-    + apply beq_eq in E. subst n. rewrite H1, H2, H4, H5.
-      assert (E2 : f_get (client_fields (opt_line hdrContentEncoding (f_ce f))) hdrContentEncoding = []) by exact H3.
-      cbn [app].
-      destruct (remove_newlines v) eqn:Ev; [destruct v; [congruence|discriminate]|].
-      unfold f_get. cbn. unfold wire_val. unfold remove_newlines in Ev. now rewrite Ev.
-    + rewrite (f_get_client_opt hdrContentEncoding (f_ce f)), (f_get_client_opt hdrContentEncoding (remove_newlines v)) by assumption.
-      now rewrite app_nil_r.
+    subst k. destruct Hs as [Hv Hprev]; [reflexivity|]. clear Ec Hk.
+    remember hdrContentEncoding as S.
+    rewrite (app_assoc (opt_line hdrServer (f_server f)) (opt_line hdrContentType (f_ct f))) in Hprev.
+    rewrite (app_assoc (opt_line hdrServer (f_server f)) (opt_line hdrContentType (f_ct f))).
+    rewrite (app_assoc (opt_line hdrServer (f_server f)) (opt_line hdrContentType (f_ct f))).
+    apply singleton_replace; auto.
   - (* Connection: excluded; stored with set semantics or as the close flag *)
-    assert (E : beq k n = false).
-    { apply beq_false_neq. intros ->. unfold classify in Ec.
-      destruct (ieq hdrContentType n); [discriminate|]. destruct (ieq hdrContentLength n); [discriminate|].
-      destruct (ieq hdrContentEncoding n); [discriminate|]. destruct (ieq hdrConnection n) eqn:E2; [|discriminate].
-      rewrite (excluded_of_ieq n hdrConnection) in Hn; [discriminate|assumption|tauto]. }
+    assert (E : beq k n = false) by (eapply excluded_class_neq; eauto; exact I).
     rewrite E, app_nil_r. destruct (beq (remove_newlines v) tokClose); [reflexivity|].
     cbn [f_ct f_ce f_server f_h f_cookies]. rewrite !client_fields_app, !f_get_app.
     rewrite !f_get_client_filter_date by assumption. now rewrite f_get_client_set_arg by assumption.
   - (* Server *)
-    subst k. destruct Hs as [Hv Hprev]; [reflexivity|].
-    rewrite !client_fields_app, !f_get_app in *.
-    apply app_eq_nil in Hprev as [H1 Hprev]. apply app_eq_nil in Hprev as [H2 Hprev].
-    apply app_eq_nil in Hprev as [H3 Hprev]. apply app_eq_nil in Hprev as [H4 H5].
-    destruct (beq hdrServer n) eqn:E.
-    + apply beq_eq in E. subst n. rewrite H2, H3, H4, H5.
-      destruct (remove_newlines v) eqn:Ev; [destruct v; [congruence|discriminate]|].
-      assert (E2 : f_get (client_fields (opt_line hdrServer (f_server f))) hdrServer = []) by exact H1.
-      rewrite E2. unfold f_get. cbn. unfold wire_val. unfold remove_newlines in Ev. now rewrite Ev.
-    + rewrite (f_get_client_opt hdrServer (f_server f)), (f_get_client_opt hdrServer (remove_newlines v)) by assumption.
-      now rewrite app_nil_r.
+    subst k. destruct Hs as [Hv Hprev]; [reflexivity|]. clear Ec Hk.
+    remember hdrServer as S.
+    apply (singleton_replace [] _ S); auto.
   - (* Set-Cookie *)
-    subst k. rewrite !client_fields_app, !f_get_app, map_app, client_fields_app, f_get_app, <- !app_assoc.
-    do 4 f_equal. unfold f_get. cbn. destruct (beq hdrSetCookie n); reflexivity.
+    subst k. clear Ec Hk Hs. remember hdrSetCookie as S.
+    rewrite !client_fields_app, !f_get_app, map_app, client_fields_app, f_get_app, <- !app_assoc.
+    do 4 f_equal. cbn [map]. rewrite f_get_client_cons. now rewrite app_nil_r.
   - (* Transfer-Encoding *)
-    assert (E : beq k n = false).
-    { apply beq_false_neq. intros ->. unfold classify in Ec.
-      repeat match type of Ec with (if ?c then _ else _) = _ => destruct c eqn:?; try discriminate end.
-      rewrite (excluded_of_ieq n hdrTransferEncoding) in Hn; [discriminate|assumption|tauto]. }
+    assert (E : beq k n = false) by (eapply excluded_class_neq; eauto; exact I).
     rewrite E. now rewrite app_nil_r.
   - (* Trailer *)
-    assert (E : beq k n = false).
-    { apply beq_false_neq. intros ->. unfold classify in Ec.
-      repeat match type of Ec with (if ?c then _ else _) = _ => destruct c eqn:?; try discriminate end.
-      rewrite (excluded_of_ieq n hdrTrailer) in Hn; [discriminate|assumption|tauto]. }
+    assert (E : beq k n = false) by (eapply excluded_class_neq; eauto; exact I).
     rewrite E. now rewrite app_nil_r.
   - (* Date *)
-    assert (E : beq k n = false).
-    { apply beq_false_neq. intros ->. unfold classify in Ec.
-      repeat match type of Ec with (if ?c then _ else _) = _ => destruct c eqn:?; try discriminate end.
-      rewrite (excluded_of_ieq n hdrDate) in Hn; [discriminate|assumption|tauto]. }
+    assert (E : beq k n = false) by (eapply excluded_class_neq; eauto; exact I).
     rewrite E. now rewrite app_nil_r.
-  - (* plain *)
-    assert (Ekd : beq k hdrDate = false).
-    { apply beq_false_neq. intros ->. unfold classify in Ec.
-      repeat match type of Ec with (if ?c then _ else _) = _ => destruct c eqn:?; try discriminate end.
-      rewrite ieq_refl in *. discriminate. }
+  - (* plain: appended to h.h, in front of the cookie lines, which have another name *)
+    assert (Ekd : beq k hdrDate = false) by now apply classify_plain_not_date.
+    assert (Eks : beq hdrSetCookie k = false).
+    { apply beq_false_neq. intros <-. revert Ec. now vm_compute. }
+    clear Ec Hk Hs Hex. remember hdrSetCookie as SC. remember hdrDate as D.
     rewrite !client_fields_app, !f_get_app. rewrite filter_app, client_fields_app, f_get_app, <- !app_assoc.
     do 3 f_equal. cbn [filter fst]. rewrite Ekd. cbn [negb].
-    rewrite (app_assoc (f_get (client_fields (filter _ (f_h f))) n)).
-    assert (Ecomm : forall (A B C : list bytes), (A ++ B) ++ C = A ++ C ++ B -> True) by auto.
-    (* the new line sits between h.h and the cookies; cookies have another name *)
+    rewrite f_get_client_cons. cbn [client_fields map f_get filter app]. rewrite app_nil_r.
     destruct (beq k n) eqn:E.
     + apply beq_eq in E. subst n.
-      assert (Ec2 : f_get (client_fields (map (fun v0 => (hdrSetCookie, v0)) (f_cookies f))) k = []).
-      { assert (Ek : beq hdrSetCookie k = false).
-        { apply beq_false_neq. intros <-. revert Ec. now vm_compute. }
-        clear - Ek. induction (f_cookies f) as [|c r IH]; [reflexivity|]. unfold f_get in *. cbn. now rewrite Ek. }
-      rewrite Ec2, !app_nil_r. unfold f_get. cbn. rewrite beq_refl. reflexivity.
-    + unfold f_get at 2. cbn. rewrite E. cbn. now rewrite app_nil_r.
+      assert (Ec2 : f_get (client_fields (map (fun v0 => (SC, v0)) (f_cookies f))) k = []).
+      { clear - Eks. induction (f_cookies f) as [|c r IH]; [reflexivity|]. cbn [map]. now rewrite f_get_client_cons, Eks, IH. }
+      rewrite Ec2. reflexivity.
+    + now rewrite app_nil_r.
 Qed.
 
 Lemma fh_fold_lines l : forall f l0,
@@ -434,10 +443,7 @@ Proof.
   assert (Hn1 : ~ In (fst kv) (keys h1)).
   { unfold keys in Hnd. rewrite map_app in Hnd. cbn in Hnd. apply NoDup_remove_2 in Hnd.
     intros Hx. apply Hnd. apply in_or_app. now left. }
-  clear - Hn1. induction h1 as [|[k' vs'] r IH]; [reflexivity|]. cbn. rewrite nvals_app.
-  assert (E : beq k' (fst kv) = false) by (apply beq_false_neq; intros ->; apply Hn1; now left).
-  rewrite IH by (intros Hx; apply Hn1; now right). rewrite app_nil_r.
-  clear - E. induction vs' as [|v vs IH]; [reflexivity|]. unfold nvals in *. cbn. now rewrite E.
+  now apply nvals_flat_notin.
 Qed.
 
 (* Lemma B: under hmap_ok the adaptor's handler-set fields are net/http's, name by name *)
@@ -524,15 +530,15 @@ Proof.
         destruct fl.
         -- destruct Hs as (c0 & fh & H1 & H2 & H3).
            eapply (IH true true true); eauto. split; [|split].
-           ++ destruct (w_code w =? 0)%Z; assumption.
-           ++ unfold rw_commit. rewrite H1. destruct (w_code w =? 0)%Z; assumption.
-           ++ exists c0, fh. unfold rw_commit. rewrite H1. destruct (w_code w =? 0)%Z; cbn; auto.
+           ++ destruct (w_code w =? 0)%Z; cbn; repeat split; auto.
+           ++ unfold rw_commit. rewrite H1. destruct (w_code w =? 0)%Z; cbn; repeat split; auto.
+           ++ exists c0, fh. unfold rw_commit. rewrite H1. destruct (w_code w =? 0)%Z; cbn; repeat split; auto.
         -- rewrite orb_false_r in Hl1. subst cs.
            destruct Hs as (c0 & fh & H1 & H2 & H3 & H4 & H5 & H6).
            eapply (IH true true false); eauto.
            replace (w_code w =? 0)%Z with false by lia.
            split; [assumption|]. unfold rw_commit. rewrite H1. split; [assumption|].
-           exists c0, fh. auto.
+           exists c0, fh. repeat split; auto.
       * destruct Hs as (H1 & H2 & H3 & H4 & H5 & H6). subst cs fl.
         eapply (IH true true false); eauto. rewrite H2. cbn.
         split; [reflexivity|]. unfold rw_commit. rewrite H1. cbn. split; [assumption|].
@@ -566,10 +572,10 @@ Proof.
     + destruct fl.
       * destruct Hs as (c0 & fh & H1 & H2 & H3).
         eapply (IH true cs true); eauto. rewrite H2. split; [assumption|]. cbn. unfold rw_commit. rewrite H1.
-        split; [assumption|]. exists c0, fh. auto.
+        split; [assumption|]. exists c0, fh. repeat split; auto.
       * destruct Hs as (c0 & fh & H1 & H2 & H3 & H4 & H5).
         eapply (IH true cs true); eauto. rewrite H2. split; [reflexivity|]. cbn. unfold rw_commit. rewrite H1.
-        split; [assumption|]. exists c0, fh. split; [reflexivity|]. rewrite app_nil_r. split; [|assumption].
+        split; [assumption|]. exists c0, fh. split; [first [reflexivity|assumption]|]. rewrite app_nil_r. split; [|assumption].
         unfold w_status. rewrite H3. destruct cs.
         -- destruct H5 as [H5 H6]. replace (w_code w =? 0)%Z with false by lia. now rewrite H5.
         -- destruct H5 as [H5 H6]. rewrite H5. cbn. now rewrite EOK, H6.
@@ -601,7 +607,10 @@ Qed.
 
 Lemma must_skip_body_spec c : valid_code c = true -> must_skip_body c = negb (body_allowed c).
 Proof.
-  destruct consts as (EOK & _ & ENC & ENM). unfold must_skip_body, body_allowed, valid_code. rewrite EOK, ENC, ENM. lia.
+  destruct consts as (EOK & _ & ENC & ENM). unfold must_skip_body, body_allowed, valid_code. rewrite EOK, ENC, ENM.
+  intros H. destruct ((c <? 100) || (c =? 200))%Z eqn:E.
+  - assert (c = 200%Z) by lia. subst. reflexivity.
+  - lia.
 Qed.
 
 (* the status a valid program ends with is a valid code *)
@@ -610,9 +619,348 @@ Lemma rw_status_valid p : forall s,
   valid_code (rw_status (fold_left rw_step p s)) = true.
 Proof.
   induction p as [|o r IH]; intros s Hv Hs; [assumption|]. cbn [fold_left]. apply IH; [intros c Hc; apply Hv; now right|].
-  destruct o; cbn; auto.
-  - destruct (informational c); [assumption|]. unfold rw_commit, rw_status in *.
-    destruct (r_committed s) as [[c0 fh]|]; cbn; [assumption|]. apply Hv. now left.
-  - unfold rw_commit, rw_status in *. destruct (r_committed s) as [[c0 fh]|]; cbn; [assumption|reflexivity].
-  - unfold rw_commit, rw_status in *. destruct (r_committed s) as [[c0 fh]|]; cbn; [assumption|reflexivity].
+  assert (Hcommit : forall c, valid_code c = true -> valid_code (rw_status (rw_commit s c)) = true).
+  { intros c Hc. unfold rw_commit, rw_status in *. destruct (r_committed s) as [[c0 fh]|] eqn:E; cbn; [rewrite E; exact Hs | exact Hc]. }
+  destruct o; cbn [rw_step]; auto.
+  - destruct (informational c); [assumption|]. apply Hcommit. apply Hv. now left.
+  - specialize (Hcommit 200%Z eq_refl). unfold rw_status in *. cbn. exact Hcommit.
+Qed.
+
+(* ------------------------------------------------------------------ *)
+(* header names: bytes, no CR/LF (every RFC 9110 token qualifies) *)
+Definition name_char_ok (c : N) : bool := (c <? 256) && negb (c =? CR) && negb (c =? LF).
+Definition name_ok (k : bytes) : bool := forallb name_char_ok k.
+Definition names_ok (p : prog) : Prop := forall o k, In o p -> op_name o = Some k -> name_ok k = true.
+
+Definition letter_or_dash (c : N) : bool := ((65 <=? c) && (c <=? 90)) || ((97 <=? c) && (c <=? 122)) || (c =? DASH).
+
+Definition range256 : list N := map N.of_nat (seq 0 256).
+Lemma in_range256 c : c < 256 -> In c range256.
+Proof.
+  intros H. unfold range256. apply in_map_iff. exists (N.to_nat c). split; [apply N2Nat.id|].
+  apply in_seq. lia.
+Qed.
+
+(* byte facts, by exhaustive computation *)
+Lemma char_case_fact :
+  forallb (fun s => forallb (fun x =>
+    implb (letter_or_dash s && name_char_ok x && (or20 s =? or20 x))
+          ((upperb s =? upperb x) && (lowerb s =? lowerb x))) range256) range256 = true.
+Proof. vm_compute. reflexivity. Qed.
+
+Lemma char_case s x :
+  letter_or_dash s = true -> name_char_ok x = true -> or20 s = or20 x -> upperb s = upperb x /\ lowerb s = lowerb x.
+Proof.
+  intros Hs Hx E.
+  assert (Hs256 : s < 256) by (unfold letter_or_dash, DASH in Hs; lia).
+  assert (Hx256 : x < 256) by (unfold name_char_ok in Hx; lia).
+  pose proof char_case_fact as F. rewrite forallb_forall in F. specialize (F s (in_range256 s Hs256)).
+  rewrite forallb_forall in F. specialize (F x (in_range256 x Hx256)).
+  rewrite Hs, Hx in F. apply N.eqb_eq in E. rewrite E in F. cbn [andb implb] in F. apply andb_true_iff in F as [F1 F2].
+  split; now apply N.eqb_eq.
+Qed.
+
+Lemma char_ok_fact :
+  forallb (fun x => implb (name_char_ok x)
+     (name_char_ok (upperb x) && name_char_ok (lowerb x)
+      && (upperb (upperb x) =? upperb x) && (lowerb (lowerb x) =? lowerb x)
+      && (upperb (lowerb x) =? upperb x) && (lowerb (upperb x) =? lowerb x)
+      && (nl_to_sp x =? x))) range256 = true.
+Proof. vm_compute. reflexivity. Qed.
+
+Lemma char_ok x : name_char_ok x = true ->
+  name_char_ok (upperb x) = true /\ name_char_ok (lowerb x) = true /\
+  upperb (upperb x) = upperb x /\ lowerb (lowerb x) = lowerb x /\
+  upperb (lowerb x) = upperb x /\ lowerb (upperb x) = lowerb x /\ nl_to_sp x = x.
+Proof.
+  intros Hx. assert (Hx256 : x < 256) by (unfold name_char_ok in Hx; lia).
+  pose proof char_ok_fact as F. rewrite forallb_forall in F. specialize (F x (in_range256 x Hx256)).
+  rewrite Hx in F. cbn [implb] in F.
+  apply andb_true_iff in F as [F H7]. apply andb_true_iff in F as [F H6]. apply andb_true_iff in F as [F H5].
+  apply andb_true_iff in F as [F H4]. apply andb_true_iff in F as [F H3]. apply andb_true_iff in F as [H1 H2].
+  repeat split; try assumption; now apply N.eqb_eq.
+Qed.
+
+Lemma canon_from_ok up k : name_ok k = true -> name_ok (canon_from up k) = true.
+Proof.
+  revert up. induction k as [|c r IH]; intros up H; [reflexivity|]. cbn in H. apply andb_true_iff in H as [Hc Hr].
+  cbn [canon_from]. cbn. destruct (char_ok c Hc) as (H1 & H2 & _).
+  destruct up; [rewrite H1|rewrite H2]; cbn; now apply IH.
+Qed.
+
+Lemma remove_newlines_ok k : name_ok k = true -> remove_newlines k = k.
+Proof.
+  induction k as [|c r IH]; intros H; [reflexivity|]. cbn in H. apply andb_true_iff in H as [Hc Hr].
+  unfold remove_newlines in *. cbn [map]. rewrite IH by assumption. destruct (char_ok c Hc) as (_ & _ & _ & _ & _ & _ & ->). reflexivity.
+Qed.
+
+Lemma canon_from_idem up k : name_ok k = true -> canon_from up (canon_from up k) = canon_from up k.
+Proof.
+  revert up. induction k as [|c r IH]; intros up H; [reflexivity|]. cbn in H. apply andb_true_iff in H as [Hc Hr].
+  destruct (char_ok c Hc) as (_ & _ & H3 & H4 & _).
+  cbn [canon_from]. destruct up.
+  - rewrite H3. f_equal. now apply IH.
+  - rewrite H4. f_equal. now apply IH.
+Qed.
+
+Lemma fhkey_canon k : name_ok k = true -> fhkey (canon k) = canon k.
+Proof.
+  intros H. unfold fhkey, canon. rewrite remove_newlines_ok by now apply canon_from_ok. now apply canon_from_idem.
+Qed.
+
+(* a canonical key that matches a special name case-insensitively IS that name *)
+Lemma ieq_canon_exact S : forall up k,
+  forallb letter_or_dash S = true -> name_ok k = true ->
+  map or20 S = map or20 (canon_from up k) -> canon_from up S = canon_from up k.
+Proof.
+  induction S as [|s S IH]; intros up k HS Hk E.
+  - destruct k; [reflexivity|discriminate].
+  - destruct k as [|c k]; [discriminate|]. cbn in HS, Hk. apply andb_true_iff in HS as [Hs HS]. apply andb_true_iff in Hk as [Hc Hk].
+    cbn [canon_from map] in *. injection E as E1 E2.
+    destruct (char_ok c Hc) as (Hu & Hl & Huu & Hll & Hul & Hlu & _).
+    destruct up.
+    + destruct (char_case s (upperb c) Hs Hu E1) as [F1 F2]. rewrite Huu in F1. rewrite F1. f_equal. now apply IH.
+    + destruct (char_case s (lowerb c) Hs Hl E1) as [F1 F2]. rewrite Hll in F2. rewrite F2. f_equal. now apply IH.
+Qed.
+
+Lemma ieq_canon S k :
+  forallb letter_or_dash S = true -> canon S = S -> name_ok k = true -> ieq S (canon k) = true -> canon k = S.
+Proof.
+  intros HS HcS Hk E. unfold ieq in E. apply beq_eq in E. unfold canon in *.
+  rewrite <- HcS. symmetry. now apply ieq_canon_exact.
+Qed.
+
+Lemma class_exact_canon k : name_ok k = true -> class_exact (canon k).
+Proof.
+  intros Hk. unfold class_exact, classify.
+  destruct (ieq hdrContentType (canon k)) eqn:E1; [apply ieq_canon; auto|].
+  destruct (ieq hdrContentLength (canon k)) eqn:E2; [exact I|].
+  destruct (ieq hdrContentEncoding (canon k)) eqn:E3; [apply ieq_canon; auto|].
+  destruct (ieq hdrConnection (canon k)) eqn:E4; [exact I|].
+  destruct (ieq hdrServer (canon k)) eqn:E5; [apply ieq_canon; auto|].
+  destruct (ieq hdrSetCookie (canon k)) eqn:E6; [apply ieq_canon; auto|].
+  destruct (ieq hdrTransferEncoding (canon k)); [exact I|].
+  destruct (ieq hdrTrailer (canon k)); [exact I|].
+  destruct (ieq hdrDate (canon k)); exact I.
+Qed.
+
+(* ------------------------------------------------------------------ *)
+(* every header map reachable by a program with good names has unique, exact keys *)
+Definition good_h (h : hmap) : Prop := NoDup (keys h) /\ forall k, In k (keys h) -> fhkey k = k /\ class_exact k.
+
+Lemma good_hdr_step h o : good_h h -> (forall k, op_name o = Some k -> name_ok k = true) -> good_h (hdr_step h o).
+Proof.
+  intros [H1 H2] Ho. split; [now apply nodup_hdr_step|].
+  apply (keys_hdr_step (fun k => fhkey k = k /\ class_exact k)); [assumption|].
+  intros k Hk. split; [apply fhkey_canon|apply class_exact_canon]; auto.
+Qed.
+
+Definition good_rw (s : rwstate) : Prop :=
+  good_h (r_h s) /\ match r_committed s with Some (_, fh) => good_h fh | None => True end.
+
+Lemma good_rw_run p : forall s, (forall o k, In o p -> op_name o = Some k -> name_ok k = true) -> good_rw s -> good_rw (fold_left rw_step p s).
+Proof.
+  induction p as [|o r IH]; intros s Hn Hs; [assumption|]. cbn [fold_left]. apply IH; [intros o' k Hin; apply Hn; now right|].
+  assert (Hc : forall c, good_rw (rw_commit s c)).
+  { intros c. destruct Hs as [H1 H2]. unfold rw_commit, good_rw. destruct (r_committed s) as [[c0 fh]|] eqn:E; cbn; [rewrite E|]; auto. }
+  destruct o; cbn [rw_step]; try (destruct (informational c)); auto.
+  - destruct Hs as [H1 H2]. split; cbn; [|assumption]. apply (good_hdr_step (r_h s) (HAdd k v)); [assumption|]. intros k0 Hk0. apply (Hn (HAdd k v)); [now left|assumption].
+  - destruct Hs as [H1 H2]. split; cbn; [|assumption]. apply (good_hdr_step (r_h s) (HSet k v)); [assumption|]. intros k0 Hk0. apply (Hn (HSet k v)); [now left|assumption].
+  - destruct Hs as [H1 H2]. split; cbn; [|assumption]. apply (good_hdr_step (r_h s) (HDel k)); [assumption|]. intros k0 Hk0. apply (Hn (HDel k)); [now left|assumption].
+  - specialize (Hc 200%Z). destruct Hc as [H1 H2]. split; cbn; assumption.
+Qed.
+
+Lemma good_frozen p : names_ok p -> good_h (rw_frozen (rw_run p)).
+Proof.
+  intros Hn. assert (H : good_rw (rw_run p)).
+  { apply good_rw_run; [exact Hn|]. split; cbn; [|exact I]. split; [constructor|intros k []]. }
+  destruct H as [H1 H2]. unfold rw_frozen. destruct (r_committed (rw_run p)) as [[c fh]|]; assumption.
+Qed.
+
+(* ------------------------------------------------------------------ *)
+(* the guards of the main theorem *)
+Definition singletons_ok (h : hmap) : Prop :=
+  forall k, In k (keys h) -> is_singleton_class (classify k) = true -> exists v, h_get h k = [v] /\ v <> [].
+Definition no_ct_on_304 (p : prog) : Prop :=
+  rw_status (rw_run p) = 304%Z -> h_get (rw_frozen (rw_run p)) sContentType = [].
+
+Theorem final_response_equal head p :
+  valid_prog p -> names_ok p -> late_free p = true ->
+  singletons_ok (rw_frozen (rw_run p)) -> no_ct_on_304 p ->
+  adaptor_panics p = false /\
+  m_status (adaptor_resp head p) = m_status (spec_resp head p) /\
+  m_body (adaptor_resp head p) = m_body (spec_resp head p) /\
+  forall n, excluded_name n = false -> f_get (m_fields (adaptor_resp head p)) n = f_get (m_fields (spec_resp head p)) n.
+Proof.
+  intros Hv Hn Hl Hsg H304.
+  destruct (sim_run p false false false w_init rw_init Hv Hl sim_init) as (cm & cs & fl & Hsim).
+  apply sim_final in Hsim. destruct Hsim as (Hp & Hst & Hbody & Hhdr).
+  fold (w_run p) in *. fold (rw_run p) in *.
+  assert (Hvalid : valid_code (rw_status (rw_run p)) = true) by (apply rw_status_valid; [exact Hv|reflexivity]).
+  pose proof (good_frozen p Hn) as [Hnd Hkeys].
+  assert (Hok : hmap_ok (rw_frozen (rw_run p))) by (split; [assumption|split; assumption]).
+  unfold adaptor_panics, adaptor_resp, spec_resp, adaptor_final, rw_final. cbn [m_status m_body m_fields].
+  split; [assumption|]. split; [assumption|]. split.
+  - rewrite Hst, Hbody. now rewrite must_skip_body_spec.
+  - intros n Hne.
+    assert (Hncl : beq hdrContentLength n = false).
+    { apply beq_false_neq. intros <-. revert Hne. now vm_compute. }
+    assert (Ha : f_get (client_fields (fh_lines (fh_of_hmap (w_out_hdr (w_run p))))) n = map wire_val (h_get (rw_frozen (rw_run p)) n)).
+    { destruct Hhdr as [-> | ->].
+      - now apply adaptor_fields_hmap.
+      - unfold drop_content_length. rewrite adaptor_fields_hmap; [|now apply hmap_ok_del|assumption].
+        now rewrite h_get_h_del, Hncl. }
+    rewrite Ha. unfold rw_wire_hdr. destruct (rw_status (rw_run p) =? 304)%Z eqn:E304.
+    + rewrite f_get_hmap_fields by now apply nodup_h_del. rewrite h_get_h_del.
+      destruct (beq sContentType n) eqn:Ect; [|reflexivity].
+      apply beq_eq in Ect. subst n. rewrite H304; [reflexivity|lia].
+    + now rewrite f_get_hmap_fields.
+Qed.
+
+(* ------------------------------------------------------------------ *)
+(* witnesses: each guard is needed *)
+Definition resp_agree (head : bool) (p : prog) : Prop :=
+  m_status (adaptor_resp head p) = m_status (spec_resp head p) /\
+  m_body (adaptor_resp head p) = m_body (spec_resp head p) /\
+  forall n, excluded_name n = false -> f_get (m_fields (adaptor_resp head p)) n = f_get (m_fields (spec_resp head p)) n.
+
+Definition late_status_witness : prog := [Write (s2b "x"); WriteHeader 404].
+Definition late_header_witness : prog := [Write (s2b "x"); HSet (s2b "X-A") (s2b "1")].
+Definition singleton_witness : prog := [HAdd (s2b "Content-Encoding") (s2b "gzip"); HAdd (s2b "Content-Encoding") (s2b "br"); Write (s2b "zz")].
+Definition ct304_witness : prog := [HSet (s2b "Content-Type") (s2b "a/b"); WriteHeader 304].
+
+Lemma late_status_refuted : valid_prog late_status_witness /\ names_ok late_status_witness /\ ~ resp_agree false late_status_witness.
+Proof.
+  split; [intros c [H|[H|[]]]; inversion H; reflexivity|]. split; [intros o k [<-|[<-|[]]] H; inversion H|].
+  intros (H & _). vm_compute in H. discriminate.
+Qed.
+Lemma late_header_refuted : valid_prog late_header_witness /\ names_ok late_header_witness /\ ~ resp_agree false late_header_witness.
+Proof.
+  split; [intros c [H|[H|[]]]; inversion H|]. split; [intros o k [<-|[<-|[]]] H; inversion H; reflexivity|].
+  intros (_ & _ & H). specialize (H (s2b "X-A") eq_refl). vm_compute in H. discriminate.
+Qed.
+Lemma singleton_refuted : valid_prog singleton_witness /\ names_ok singleton_witness /\ late_free singleton_witness = true /\ ~ resp_agree false singleton_witness.
+Proof.
+  split; [intros c [H|[H|[H|[]]]]; inversion H|]. split; [intros o k [<-|[<-|[<-|[]]]] H; inversion H; reflexivity|].
+  split; [reflexivity|].
+  intros (_ & _ & H). specialize (H (s2b "Content-Encoding") eq_refl). vm_compute in H. discriminate.
+Qed.
+Lemma ct304_refuted : valid_prog ct304_witness /\ names_ok ct304_witness /\ late_free ct304_witness = true /\ ~ resp_agree false ct304_witness.
+Proof.
+  split; [intros c [H|[H|[]]]; inversion H; reflexivity|]. split; [intros o k [<-|[<-|[]]] H; inversion H; reflexivity|].
+  split; [reflexivity|].
+  intros (_ & _ & H). specialize (H (s2b "Content-Type") eq_refl). vm_compute in H. discriminate.
+Qed.
+
+(* the fixed B22 defect stays fixed in the model: informational codes never become the final status *)
+Lemma informational_never_final head p c :
+  valid_prog p -> informational c = true -> m_status (adaptor_resp head (WriteHeader c :: p)) = m_status (adaptor_resp head p).
+Proof.
+  intros _ Hi. unfold adaptor_resp, w_run. cbn [fold_left]. unfold w_step at 2. cbn [w_panic w_init].
+  unfold informational in Hi. destruct consts as (_ & -> & _).
+  replace ((c <? 100) || (c >? 999))%Z with false by lia. now rewrite Hi.
+Qed.
+
+(* ------------------------------------------------------------------ *)
+(* ConvertRequest against http.ReadRequest (request line, Host, body; the header multimap minus Host is
+   tied by the harness only) *)
+Definition connect_auth (q : sreq) : bool := beq (q_method q) sCONNECT && negb (starts_with_slash (q_target q)).
+Definition proto_10_or_11 (q : sreq) : Prop := q_proto q = s2b "HTTP/1.1" \/ q_proto q = s2b "HTTP/1.0".
+
+Lemma convert_line_equal q :
+  connect_auth q = false -> proto_10_or_11 q ->
+  let a := convert_request q in let n := spec_read_request q in
+  c_method a = c_method n /\ c_uri a = c_uri n /\ c_url a = c_url n /\ c_proto a = c_proto n /\
+  c_major a = c_major n /\ c_minor a = c_minor n /\ c_body a = c_body n.
+Proof.
+  intros Hc Hp a n. subst a n. unfold convert_request, spec_read_request.
+  cbn [c_method c_uri c_url c_proto c_major c_minor c_body]. unfold connect_auth in Hc. rewrite Hc.
+  destruct Hp as [E|E]; rewrite E; repeat split; reflexivity.
+Qed.
+
+Lemma h_get_h_add h k v n : h_get (h_add h k v) n = if beq k n then h_get h n ++ [v] else h_get h n.
+Proof.
+  induction h as [|[k' vs] r IH]; cbn [h_add h_get].
+  - destruct (beq k n); reflexivity.
+  - destruct (beq k' k) eqn:E; cbn [h_get].
+    + apply beq_eq in E. subst k'. destruct (beq k n); reflexivity.
+    + rewrite IH. destruct (beq k' n) eqn:E2; [|reflexivity].
+      apply beq_eq in E2. subst k'. rewrite beq_sym in E. now rewrite E.
+Qed.
+
+Definition conv_step (h : hmap) (kv : bytes * bytes) : hmap :=
+  if beq (fst kv) sTransferEncoding then h else h_add h (canon (fst kv)) (snd kv).
+
+Lemma h_get_conv_fold l : forall h n,
+  h_get (fold_left conv_step l h) n
+  = h_get h n ++ map snd (filter (fun kv => negb (beq (fst kv) sTransferEncoding) && beq (canon (fst kv)) n) l).
+Proof.
+  induction l as [|[k v] r IH]; intros h n; cbn [fold_left filter map]; [now rewrite app_nil_r|].
+  rewrite IH. unfold conv_step. cbn [fst snd].
+  destruct (beq k sTransferEncoding); cbn [negb andb]; [reflexivity|].
+  rewrite h_get_h_add. destruct (beq (canon k) n); cbn [map]; [now rewrite <- app_assoc|reflexivity].
+Qed.
+
+Lemma h_get_hdr_of_lines l n :
+  h_get (hdr_of_lines l) n = map snd (filter (fun kv => beq (canon (fst kv)) n) l).
+Proof.
+  unfold hdr_of_lines.
+  assert (G : forall l h, h_get (fold_left (fun h kv => h_add h (canon (fst kv)) (snd kv)) l h) n
+                          = h_get h n ++ map snd (filter (fun kv => beq (canon (fst kv)) n) l)).
+  { clear l. induction l as [|[k v] r IH]; intros h; cbn [fold_left filter map]; [now rewrite app_nil_r|].
+    rewrite IH, h_get_h_add. cbn [fst snd]. destruct (beq (canon k) n); cbn [map]; [now rewrite <- app_assoc|reflexivity]. }
+  now rewrite G.
+Qed.
+
+(* case-insensitive match of a name against a canonical special name = equality of canonical forms *)
+Lemma or20_canon_from up k : name_ok k = true -> map or20 (canon_from up k) = map or20 k.
+Proof.
+  revert up. induction k as [|c r IH]; intros up H; [reflexivity|]. cbn in H. apply andb_true_iff in H as [Hc Hr].
+  cbn [canon_from map]. rewrite IH by assumption. f_equal.
+  assert (F : forallb (fun x => (or20 (upperb x) =? or20 x) && (or20 (lowerb x) =? or20 x)) range256 = true) by (vm_compute; reflexivity).
+  rewrite forallb_forall in F. assert (Hc256 : c < 256) by (unfold name_char_ok in Hc; lia).
+  specialize (F c (in_range256 c Hc256)). apply andb_true_iff in F as [F1 F2]. apply N.eqb_eq in F1, F2. now destruct up.
+Qed.
+
+Lemma canon_beq_ieq S k :
+  forallb letter_or_dash S = true -> canon S = S -> name_ok k = true -> beq (canon k) S = ieq k S.
+Proof.
+  intros HS HcS Hk. destruct (ieq k S) eqn:E.
+  - apply beq_eq. apply ieq_canon; try assumption. rewrite ieq_sym. unfold ieq in *. unfold canon. now rewrite or20_canon_from.
+  - apply beq_false_neq. intros Hc. rewrite <- Hc in E. unfold ieq, canon in E. rewrite or20_canon_from in E by assumption.
+    now rewrite beq_refl in E.
+Qed.
+
+Definition line_names_ok (q : sreq) : Prop := forall kv, In kv (q_hdrs q) -> name_ok (fst kv) = true.
+
+Lemma lines_get_canon l S :
+  (forall kv, In kv l -> name_ok (fst kv) = true) -> forallb letter_or_dash S = true -> canon S = S ->
+  lines_get l S = map snd (filter (fun kv => beq (canon (fst kv)) S) l).
+Proof.
+  intros Hn HS HcS. unfold lines_get. f_equal. apply filter_ext_in. intros kv Hin. symmetry. apply canon_beq_ieq; auto.
+Qed.
+
+(* r.Host through the adaptor is net/http's r.Host lower-cased: equal exactly for lower-case hosts *)
+Lemma convert_host_lowercased q :
+  line_names_ok q -> connect_auth q = false -> (length (lines_get (q_hdrs q) hdrHost) <= 1)%nat ->
+  c_host (convert_request q) = lower_bytes (c_host (spec_read_request q)).
+Proof.
+  intros Hn Hc Hone. unfold connect_auth in Hc. unfold convert_request, spec_read_request. cbn [c_host]. rewrite Hc.
+  unfold fh_parse. cbn [fq_host]. rewrite h_get_hdr_of_lines.
+  change sHost with hdrHost. rewrite <- (lines_get_canon (q_hdrs q) hdrHost) by (auto; reflexivity).
+  destruct (lines_get (q_hdrs q) hdrHost) as [|v [|v2 r]]; [reflexivity|reflexivity|cbn in Hone; lia].
+Qed.
+
+(* Host stays in r.Header through the adaptor, http.ReadRequest removes it: for every request with a Host line *)
+Lemma convert_host_in_header q v :
+  lines_get (q_hdrs q) hdrHost = [v] -> v <> [] ->
+  (exists r, h_get (c_hdr (convert_request q)) sHost = v :: r) /\ h_get (c_hdr (spec_read_request q)) sHost = [].
+Proof.
+  intros Hl Hv. split.
+  - unfold convert_request. cbn [c_hdr]. change (fun h kv => if beq (fst kv) sTransferEncoding then h else h_add h (canon (fst kv)) (snd kv)) with conv_step.
+    rewrite h_get_conv_fold. cbn [h_get app]. unfold fh_all, fh_parse. cbn [fq_host]. rewrite Hl. cbn [last_or_empty last].
+    destruct v as [|c v]; [congruence|]. cbn [opt_line app filter fst snd].
+    replace (negb (beq hdrHost sTransferEncoding) && beq (canon hdrHost) sHost) with true by (vm_compute; reflexivity).
+    cbn [map snd]. eexists. reflexivity.
+  - unfold spec_read_request. cbn [c_hdr]. rewrite h_get_h_del. now rewrite beq_refl.
 Qed.
